@@ -802,3 +802,11 @@ Proof.
 Qed.
 Lemma ex_sent_with_private : sent_with d_private [t_max_age_3600; t_private_arg].
 Proof. exists t_private_arg. split; [vm_compute; right; left; reflexivity|reflexivity]. Qed.
+Lemma ex_no_permission :
+  ~ sent_with d_public [t_max_age_3600] /\ ~ sent_with d_must_revalidate [t_max_age_3600] /\
+  ~ sent_with d_s_maxage [t_max_age_3600] /\ simple (join_values [t_max_age_3600]) = true /\
+  (negative_ttl default_config <= 0)%Z.
+Proof.
+  repeat split; try (intros [it [Hin Hd]]; vm_compute in Hin; destruct Hin as [<-|[]]; vm_compute in Hd; discriminate).
+  vm_compute. discriminate.
+Qed.
